@@ -90,6 +90,10 @@ NEEDS.update({
 })
 
 NOT_VIOLATING = {
+ "C06b-2": "not kept: written against the tree before the F1 repair (caught then by C06:quick); with the repair a node that becomes leader in the Ready that first carries its new term holds its messages until that Ready is persisted, so the persist-before-send demonstration no longer fails (the change still lets a Candidate count pre-vote grants, which is C02/C03 territory and is covered there by C01-2, C02-1, C03-1)",
+ "C02-2": "not kept: written against the tree before the F1 repair (caught then by C06:quick and C02:thorough); the repaired Ready logic holds every message of a Ready that changes term or vote, which neutralises this change - its demonstration no longer fails",
+ "C04-2": "not kept: same change as C02-2, neutralised by the F1 repair (caught before it by C04:quick and C06:quick)",
+ "C06-1": "not kept: written against the tree before the F1 repair (caught then by C06:quick); the granted vote that followed the pre-candidacy is now held by the term/vote rule of the repaired Ready logic",
  "C18b-1": "not kept: the changed behaviour stays inside the property as stated (\"a reduced capacity takes effect no later than when the window drains\": until then either capacity may bound the window; the model in comp_small.rs accepts both on purpose, otherwise a lazier but conforming implementation would raise a false alarm)",
 }
 
